@@ -19,6 +19,7 @@ import (
 	"runtime"
 	"sort"
 	"strings"
+	"sync"
 	"testing"
 	"time"
 
@@ -134,6 +135,14 @@ type scriptedTransport struct {
 	calls    []haproxyCall
 	done     chan struct{}
 	active   bool
+	// fault injection (unit TestWiringWithProxyFaults): faults[k] = the management calls of the k-th reaction
+	// attempt are answered 503. An attempt = the management calls between two statistics polls.
+	mu        sync.Mutex
+	faults    []bool
+	attempt   int
+	sincePoll bool
+	failed    []reactRec // attempts that were answered 503 (the policies did not change)
+	faulty    bool       // the current attempt is a faulted one
 }
 
 func snap(acc *config.TxnPoliciesAccessor) snapshot {
@@ -180,6 +189,9 @@ func (s *scriptedTransport) RoundTrip(req *http.Request) (*http.Response, error)
 		return okResponse(req, "ok"), nil
 	}
 	if req.URL.Host == "localhost:9000" {
+		s.mu.Lock()
+		s.sincePoll = true
+		s.mu.Unlock()
 		s.snaps = append(s.snaps, snap(s.acc))
 		if s.idx >= len(s.k.Script) {
 			s.active = false
@@ -194,7 +206,25 @@ func (s *scriptedTransport) RoundTrip(req *http.Request) (*http.Response, error)
 		s.idx++
 		return okResponse(req, body), nil
 	}
+	s.mu.Lock()
+	defer s.mu.Unlock()
 	s.calls = append(s.calls, haproxyCall{T: s.clk.Off(), Method: req.Method, Path: req.URL.Path})
+	if s.faults != nil && req.Method == http.MethodPut {
+		if s.sincePoll {
+			// the first management call after a poll: a new reaction attempt begins
+			s.sincePoll = false
+			s.faulty = s.attempt < len(s.faults) && s.faults[s.attempt]
+			s.attempt++
+			if s.faulty {
+				s.failed = append(s.failed, reactRec{T: s.clk.Off(), Obs: s.idx - 1})
+			}
+		}
+		if s.faulty {
+			resp := okResponse(req, "unavailable")
+			resp.StatusCode, resp.Status = 503, "503 Service Unavailable"
+			return resp, nil
+		}
+	}
 	return okResponse(req, "ok"), nil
 }
 
